@@ -94,7 +94,8 @@ func (p *Publish) Unpack(r io.Reader) error {
 	if err != nil {
 		return err
 	}
-	if !ValidTopicName(true, p.TopicName) {
+	// (an empty topic name is dealt with below: a v5 Topic Alias can stand in for it)
+	if len(p.TopicName) != 0 && !ValidTopicName(true, p.TopicName) {
 		return codes.ErrMalformed
 	}
 	if p.Qos > Qos0 {
